@@ -80,6 +80,57 @@ struct Rendered {
     max_nesting: usize,
     context_dependent_after_include: bool,
     repeated_includes: usize,
+    /// base name of every file: usually f<j>.zone; several files in *different* directories
+    /// may share the name "shared.zone" (the same relative spelling then denotes different files)
+    names: Vec<String>,
+    shared_name_reused: bool,
+}
+
+/// Lexical normalisation (the case's directories contain no symlinks).
+fn normalize(p: &Path) -> PathBuf {
+    let mut out = PathBuf::new();
+    for c in p.components() {
+        match c {
+            std::path::Component::ParentDir => {
+                out.pop();
+            }
+            std::path::Component::CurDir => {}
+            other => out.push(other.as_os_str()),
+        }
+    }
+    out
+}
+
+/// Assigns base names: a file whose position selector is a multiple of 3 is called
+/// "shared.zone" unless another file already occupies that path.
+fn assign_names(case: &Case, root: &Path) -> (Vec<String>, bool) {
+    let n = case.files.len();
+    let mut names: Vec<String> = (0..n).map(|j| format!("f{j}.zone")).collect();
+    let mut paths: Vec<PathBuf> = vec![root.to_path_buf(); n];
+    let mut used: std::collections::BTreeSet<PathBuf> = std::collections::BTreeSet::new();
+    used.insert(normalize(root));
+    let mut shared_count = 0;
+    let repeated = shared_files(case);
+    for j in 1..n {
+        let parent = case.files[j].parent as usize % j;
+        let dir = String::from_utf8_lossy(&case.files[j].dir).to_string();
+        let base = paths[parent].parent().unwrap().to_path_buf();
+        let with = |name: &str| if dir.is_empty() { base.join(name) } else { base.join(&dir).join(name) };
+        // (files that are included repeatedly, possibly from other directories, keep their unique names)
+        if case.files[j].position % 3 == 0 && !repeated[j] {
+            let cand = with("shared.zone");
+            if used.insert(normalize(&cand)) {
+                names[j] = "shared.zone".to_string();
+                paths[j] = cand;
+                shared_count += 1;
+                continue;
+            }
+        }
+        let p = with(&names[j]);
+        used.insert(normalize(&p));
+        paths[j] = p;
+    }
+    (names, shared_count >= 2)
 }
 
 fn origin_text(o: &MName) -> String {
@@ -131,7 +182,7 @@ fn render_file(case: &Case, idx: usize, path: &Path, level: usize, ctx: &mut PCt
             child_iter.next();
             let child = &case.files[j];
             let dir = String::from_utf8_lossy(&child.dir).to_string();
-            let rel = if dir.is_empty() { format!("f{j}.zone") } else { format!("{dir}/f{j}.zone") };
+            let rel = if dir.is_empty() { out.names[j].clone() } else { format!("{dir}/{}", out.names[j]) };
             let child_path = path.parent().unwrap().join(&rel);
             let written = if child.path_style % 4 == 3 { child_path.to_string_lossy().to_string() } else { rel.clone() };
             let mut directive = format!("$INCLUDE {}", escape_path(&written, child.path_style));
@@ -256,7 +307,12 @@ pub fn oracle(case: &Case, st: &mut Stats) -> Verdict {
         max_nesting: 0,
         context_dependent_after_include: false,
         repeated_includes: 0,
+        names: Vec::new(),
+        shared_name_reused: false,
     };
+    let (names, reused) = assign_names(case, &root);
+    out.names = names;
+    out.shared_name_reused = reused;
     let mut ctx = PCtx::default();
     let mut flat: Vec<u8> = Vec::new();
     let mut flat_ok = true;
@@ -397,6 +453,9 @@ pub fn oracle(case: &Case, st: &mut Stats) -> Verdict {
     }
     if out.context_dependent_after_include {
         st.class("context-dependent-record-after-include");
+    }
+    if out.shared_name_reused && complete {
+        st.class("same-relative-spelling-for-different-files");
     }
     if out.repeated_includes > 0 && complete {
         st.class("a-file-included-more-than-once");
